@@ -16,6 +16,7 @@ pub mod c10;
 pub mod c11;
 pub mod c16;
 pub mod c17;
+pub mod c18;
 
 pub fn run(engine: &str, ctx: &Ctx, rep: &mut Report) -> bool {
     match engine {
@@ -38,6 +39,8 @@ pub fn run(engine: &str, ctx: &Ctx, rep: &mut Report) -> bool {
         "c16" => c16::run(ctx, rep),
         "c17" => c17::run_c17(ctx, rep),
         "c19" => c17::run_c19(ctx, rep),
+        "c18ref" => c18::run_ref(ctx, rep),
+        "c18" => c18::run(ctx, rep),
         _ => return false,
     }
     true
